@@ -8,6 +8,7 @@ import (
 	"math/rand"
 	"sort"
 	"strings"
+	"sync"
 	"time"
 
 	"github.com/emitter-io/emitter/internal/network/mqtt"
@@ -191,6 +192,12 @@ func RunC12(c *core.Ctx) {
 		core.Fatalf("received %d cases / %d probes from TLC, the grid has %d", len(cases), len(probes), expected)
 	}
 	var evals, nontrivial, streamGains, charSubs, banGains int64
+	// (key string, its grants when presented alone) per license, for the concurrent stage
+	type seqGrants struct {
+		key string
+		g   map[string]bool
+	}
+	keep := map[int][]seqGrants{}
 	verdict := func(v int, what string, orig, mod string, gained []string, predicted map[string]bool, cs any) {
 		if len(gained) == 0 {
 			return
@@ -248,6 +255,9 @@ func RunC12(c *core.Ctx) {
 			}
 			mod := base64.RawURLEncoding.EncodeToString(applyTamper(raw, cs, plain))
 			after := grants(b, mod, probes)
+			if i%7 == v%7 && len(keep[v]) < 800 {
+				keep[v] = append(keep[v], seqGrants{ks, base}, seqGrants{mod, after})
+			}
 			var gained []string
 			for g := range after {
 				if !base[g] {
@@ -371,6 +381,56 @@ func RunC12(c *core.Ctx) {
 			}
 		}
 	}
+	// concurrent use: a modified key presented while other connections present issued (stronger) keys. Whatever the
+	// broker shares between authorizations (cipher state, decrypt buffers, memoized keys), the grants of a string are
+	// those it has when presented alone.
+	var concN, concBad int64
+	var cmu sync.Mutex
+	for v := 1; v <= 3; v++ {
+		ks := keep[v]
+		if len(ks) == 0 {
+			continue
+		}
+		b := brokers[v]
+		strong, _ := Mint(b, Key{Decrypts: true, Contract: "own", SigOK: true, MasterOK: true, Perms: []string{"r", "w", "s", "l", "p"}, Expiry: "none", Target: Chan{Hash: true}}, uint16(4000+v))
+		ks = append(ks, seqGrants{strong, grants(b, strong, probes)})
+		rounds := 30000
+		if !c.Quick() {
+			rounds = 300000
+		}
+		var cwg sync.WaitGroup
+		for g := 0; g < 16; g++ {
+			cwg.Add(1)
+			go func(g int) {
+				defer cwg.Done()
+				r := rand.New(rand.NewSource(c.Seed*1000 + int64(g)))
+				var window [3]seqGrants
+				for i := 0; i < rounds; i++ {
+					if i%192 == 0 {
+						for j := range window {
+							window[j] = ks[r.Intn(len(ks))]
+						}
+						window[r.Intn(3)] = ks[len(ks)-1] // the strong key is always somebody's
+					}
+					x := window[r.Intn(len(window))]
+					p := probes[r.Intn(len(probes))]
+					_, _, real := b.Svc.Authorize(security.ParseChannel([]byte(x.key+"/"+p.Req.String())), permOf(p.Op))
+					if real != x.g[p.String()] {
+						cmu.Lock()
+						concBad++
+						if concBad <= 3 {
+							replay, _ := json.Marshal(map[string]any{"e": "concurrent-tamper", "license": v, "key": x.key, "probe": p.String(), "alone": x.g[p.String()], "concurrent": real, "goroutines": 16})
+							c.Violation(fmt.Sprintf("license v%d: key string %s is answered %v for %q while other connections present other keys, and %v when presented alone", v, x.key, real, p.String(), x.g[p.String()]), replay)
+						}
+						cmu.Unlock()
+					}
+				}
+			}(g)
+		}
+		cwg.Wait()
+		concN += int64(16 * rounds)
+	}
+	c.Set("concurrent_authorizations", concN)
 	c.Set("two_key_splices", splices)
 	c.Set("evaluations", evals+charSubs+splices)
 	c.Set("model_tamper_cases", int64(len(cases)))
